@@ -72,6 +72,17 @@ func EscapeWordBoundary(src string) string {
 	return val
 }
 
+// checkFormats returns an error for the first format string that the parser cannot read. The parsers panic on such
+// a string when they are used, which is in the middle of diagram generation.
+func checkFormats(parsers ...*cmdutils.FormatParser) error {
+	for _, fp := range parsers {
+		if err := fp.Check(); err != nil {
+			return err
+		}
+	}
+	return nil
+}
+
 func DoConstructSequenceDiagrams(
 	cmdContextParam *cmdutils.CmdContextParamSeqgen,
 	model *sysl.Module,
@@ -100,6 +111,9 @@ func DoConstructSequenceDiagrams(
 			logger.Warnf("Ignoring blackboxes passed from command line")
 		}
 		spout := cmdutils.MakeFormatParser(cmdContextParam.Output)
+		if err := checkFormats(spout); err != nil {
+			return nil, err
+		}
 		// If no apps were provided, assume the parents of the given endpoints.
 		apps := cmdContextParam.AppsFlag
 		if len(apps) == 0 {
@@ -114,6 +128,9 @@ func DoConstructSequenceDiagrams(
 			spseqtitle := ConstructFormatParser(app.GetAttrs()["seqtitle"].GetS(), cmdContextParam.Title)
 			spep := ConstructFormatParser(app.GetAttrs()["epfmt"].GetS(), cmdContextParam.EndpointFormat)
 			spapp := ConstructFormatParser(app.GetAttrs()["appfmt"].GetS(), cmdContextParam.AppFormat)
+			if err := checkFormats(spseqtitle, spep, spapp); err != nil {
+				return nil, err
+			}
 			keys := []string{}
 			for k := range app.GetEndpoints() {
 				keys = append(keys, k)
@@ -185,6 +202,9 @@ func DoConstructSequenceDiagrams(
 		}
 		spep := ConstructFormatParser("", cmdContextParam.EndpointFormat)
 		spapp := ConstructFormatParser("", cmdContextParam.AppFormat)
+		if err := checkFormats(spep, spapp); err != nil {
+			return nil, err
+		}
 		bbsAll := map[string]*cmdutils.Upto{}
 		cmdutils.TransformBlackboxesToUptos(bbsAll, blackboxes, cmdutils.BBCommandLine)
 		sd := &SequenceDiagParam{
